@@ -35,3 +35,4 @@ INVARIANT JudgeAcceptsModel
 INVARIANT SubsequenceFormsAgree
 INVARIANT DeviationsAreRejected
 INVARIANT PairDeviationsAreRejected
+INVARIANT RelaxableDeviationsAreRejected
